@@ -3,7 +3,7 @@ import json
 import random
 import string
 
-from ..common import (REPO, Report, cbool, clist, copt, cstr, decide, load_findings, run_case_shards, run_impl,
+from ..common import (COQ, REPO, Report, cbool, clist, copt, cstr, decide, load_findings, run_case_shards, run_impl,
                       standard_proof_part, write_replay)
 
 PROP = "C19"
@@ -351,6 +351,16 @@ def run(args):
         s = r.get("status", "raised") if isinstance(r, dict) else "?"
         cov["statuses"][s or "enhsp"] = cov["statuses"].get(s or "enhsp", 0) + 1
     cov["patterns_read_from_module"] = consts
+    # the literal of Proofs/C19_Shipped.v (theorem C19_shipped_log) is the repository's file of this run?
+    try:
+        src = (COQ / "Proofs" / "C19_Shipped.v").read_text()
+        lit = src.split('Definition shipped_log : string :=\n"', 1)[1].split('".\n', 1)[0]
+        cov["shipped_log_literal_equals_repo_file"] = (lit == (REPO / SHIPPED_LOG).read_bytes().decode("latin-1"))
+    except Exception as e:  # noqa
+        cov["shipped_log_literal_equals_repo_file"] = "not compared: %s" % e
+    if cov["shipped_log_literal_equals_repo_file"] is not True:
+        rep.notes.append("tests/exporters_tests/output.out differs from the literal of Proofs/C19_Shipped.v: theorem C19_shipped_log speaks of the "
+                         "older file (the file of this run is still fed to the implementation as a correspondence case)")
     cov["exhaustive"] = False
     cov["rule"] = ("plans of 0-150 steps (every length once in the Metric-FF layout at the thorough tier, every 7th at quick; random lengths otherwise) over "
                    "names in [A-Za-z0-9_-], rendered as Metric-FF logs in 7 layouts (step prefix, indentation with blanks/tabs, number widths 1-4, blanks "
